@@ -222,17 +222,18 @@ def p256SqrtB : Nat := 0x66485c780e2f83d72433bd5d84a06bb6541c2af31dae871728bf856
 def p256X0 : WPt (Fp p256.p) := .aff (Fp.ofNat _ 0) (Fp.ofNat _ p256SqrtB)
 def p256X0' : WPt (Fp p256.p) := W.neg p256X0
 
-/-- **the defect** (kernel evaluation of the executable model with the P-256 constants): `(0, ±√b)`
-are on the curve, their compressed encodings decode to the identity, and the even one *is* the
-identity's encoding. -/
+/-- **the open defect** (kernel evaluation of the executable model with the P-256 constants and the
+P-256 rule `decodeCompressedS`): `(0, √b)` with even `√b` is on the curve, is not the identity, and its
+compressed encoding *is* the identity's `02 ‖ 0…0`, which decodes to the identity.  (`(0, -√b)`, odd,
+encodes as `03 ‖ 0…0` and round-trips since /repo 69efa1d: `decode_encode_p256`.) -/
 theorem p256_compressed_roundtrip_false :
     let io := fpIO p256.p
     let a := Fp.ofNat p256.p p256.a
     let b := Fp.ofNat p256.p p256.b
     W.onCurve a b p256X0 = true ∧ W.onCurve a b p256X0' = true ∧ p256X0 ≠ .inf ∧ p256X0 ≠ p256X0' ∧
-    Sec1.decodeCompressed io a b 32 (Sec1.encodeCompressed io 32 p256X0) = some .inf ∧
-    Sec1.decodeCompressed io a b 32 (Sec1.encodeCompressed io 32 p256X0') = some .inf ∧
-    Sec1.encodeCompressed io 32 p256X0 = Sec1.encodeCompressed io 32 .inf := by
+    Sec1.decodeCompressedS io a b 32 (Sec1.encodeCompressed io 32 p256X0) = some .inf ∧
+    Sec1.encodeCompressed io 32 p256X0 = Sec1.encodeCompressed io 32 .inf ∧
+    Sec1.encodeCompressed io 32 p256X0' = 3 :: beBytes 32 0 := by
   decide +kernel
 
 /-! ## the other families: length checks, and validity of accepted points -/
@@ -611,6 +612,92 @@ theorem ed_encode_injective (h : GoodIO io len) (hlen : 0 < len) (hTop : ∀ x, 
 
 end flagbit
 
+section p256rule
+variable {F : Type} [Field F] [DecidableEq F] (io : FieldIO F) (a b : F) (len : Nat)
+
+/-! ### P-256 rule (`decodeCompressedS`, /repo 69efa1d): only `02 ‖ 0…0` is the identity -/
+
+/-- **decode ∘ encode, SEC1 compressed with the P-256 rule**: every curve point round-trips except a
+point `(0, y)` with even `y`, whose encoding `02 ‖ 0…0` is the identity's (P-256 has that point:
+`p256_compressed_roundtrip_false`; the still-open finding) -/
+theorem decode_encode_p256 (h : GoodIO io len) (P : WPt F) (hP : W.onCurve a b P = true)
+    (hx : ∀ x y, P = .aff x y → ¬ (x = 0 ∧ io.toNat y % 2 = 0)) :
+    Sec1.decodeCompressedS io a b len (Sec1.encodeCompressed io len P) = some P := by
+  cases P with
+  | inf =>
+    have h0 : beNat (beBytes len 0) = 0 := beNat_beBytes len 0 (by positivity)
+    simp [Sec1.encodeCompressed, Sec1.decodeCompressedS, length_beBytes, h0, h.ofNat_zero]
+  | aff x y =>
+    have hxy : y * y = x * x * x + a * x + b := (onCurve_aff_iff a b x y).1 hP
+    have hbx : beNat (beBytes len (io.toNat x)) = io.toNat x := beNat_beBytes _ _ (h.toNat_lt x)
+    obtain ⟨r, hr, hry⟩ := sqrt_pm io len h y
+    have ht : io.toNat y % 2 < 2 := Nat.mod_lt _ (by norm_num)
+    have htag : ¬ (2 + io.toNat y % 2 ≠ 2 ∧ 2 + io.toNat y % 2 ≠ 3) := by omega
+    have hpar : (2 + io.toNat y % 2) % 2 = io.toNat y % 2 := by omega
+    have hne := hx x y rfl
+    simp only [Sec1.encodeCompressed, Sec1.decodeCompressedS, length_beBytes, ne_eq, not_true_eq_false,
+      if_false, htag, hbx, h.ofNat_toNat, hpar, hne, ← hxy, hr]
+    rw [pick_parity io len h y r hry]
+
+/-- accepted ⇒ on the curve (P-256 rule) -/
+theorem decode_valid_p256 (h : GoodIO io len) (bs : List Nat) (P : WPt F)
+    (hd : Sec1.decodeCompressedS io a b len bs = some P) : W.onCurve a b P = true := by
+  cases bs with
+  | nil => simp [Sec1.decodeCompressedS] at hd
+  | cons tag xs =>
+    simp only [Sec1.decodeCompressedS] at hd
+    split at hd
+    · simp at hd
+    · split at hd
+      · simp at hd
+      · split at hd
+        · cases hd; rfl
+        · split at hd
+          · simp at hd
+          · next r hr =>
+            have hrr := h.sqrt_sound _ _ hr
+            cases hd
+            rw [onCurve_aff_iff]
+            split
+            · exact hrr
+            · rw [← hrr]; ring
+
+/-- wrong length / tag ⇒ rejected (P-256 rule) -/
+theorem decode_len_flags_p256 (tag : Nat) (xs : List Nat) :
+    (xs.length ≠ len → Sec1.decodeCompressedS io a b len (tag :: xs) = none) ∧
+    (tag ≠ 2 → tag ≠ 3 → Sec1.decodeCompressedS io a b len (tag :: xs) = none) ∧
+    Sec1.decodeCompressedS io a b len [] = none := by
+  refine ⟨?_, ?_, rfl⟩
+  · intro hl; simp [Sec1.decodeCompressedS, hl]
+  · intro h2 h3; simp [Sec1.decodeCompressedS, h2, h3]
+
+/-- distinct curve points other than `(0, even y)` have distinct compressed encodings -/
+theorem encode_injective_p256 (h : GoodIO io len) (P Q : WPt F)
+    (hP : W.onCurve a b P = true) (hQ : W.onCurve a b Q = true)
+    (hxP : ∀ x y, P = .aff x y → ¬ (x = 0 ∧ io.toNat y % 2 = 0))
+    (hxQ : ∀ x y, Q = .aff x y → ¬ (x = 0 ∧ io.toNat y % 2 = 0))
+    (he : Sec1.encodeCompressed io len P = Sec1.encodeCompressed io len Q) : P = Q := by
+  have h1 := decode_encode_p256 io a b len h P hP hxP
+  have h2 := decode_encode_p256 io a b len h Q hQ hxQ
+  rw [he, h2] at h1
+  exact (Option.some.inj h1).symm
+
+/-- the unrestricted round-trip statement under the P-256 rule; still **false** when `b` has an even root -/
+def decode_encode_p256_statement : Prop :=
+  ∀ P : WPt F, W.onCurve a b P = true →
+    Sec1.decodeCompressedS io a b len (Sec1.encodeCompressed io len P) = some P
+
+/-- an even square root `y` of `b` gives the curve point `(0, y)` whose encoding is the identity's -/
+theorem decode_encode_p256_statement_false_of_even_sqrt (h : GoodIO io len) (y : F) (hy : y * y = b)
+    (hev : io.toNat y % 2 = 0) : ¬ decode_encode_p256_statement io a b len := by
+  intro hs
+  have hP : W.onCurve a b (.aff 0 y) = true := by rw [onCurve_aff_iff]; rw [hy]; ring
+  have := hs _ hP
+  have h0 : beNat (beBytes len (io.toNat (0 : F))) = io.toNat (0 : F) := beNat_beBytes _ _ (h.toNat_lt 0)
+  simp [Sec1.encodeCompressed, Sec1.decodeCompressedS, length_beBytes, h0, h.ofNat_toNat, hev] at this
+
+end p256rule
+
 /-! ## BLS12-381 (ZCash flags), at the level of the model: coordinates through a `CoordIO` view -/
 
 /-- what the BLS codecs assume about the coordinate view: the bytes of a coordinate leave the three
@@ -695,6 +782,24 @@ theorem bls_decode_valid (h : GoodCoordIO io len) (bs : List Nat) (P : WPt F)
         · rw [if_pos hn] at hd; exact key r hrr hd
         · rw [if_neg hn] at hd; exact key (-r) (by rw [← hrr]; ring) hd
 
+/-- **wrong flag bits ⇒ rejected** (uncompressed, /repo b714135): the compression flag and the sort flag must
+be clear, and the infinity flag excludes every coordinate bit -/
+theorem bls_uncompressed_flags_rejected (b0 : Nat) (rest : List Nat) :
+    (b0 / 128 % 2 = 1 → Bls.decodeUncompressed io a b n len (b0 :: rest) = none) ∧
+    (b0 / 32 % 2 = 1 → Bls.decodeUncompressed io a b n len (b0 :: rest) = none) ∧
+    (b0 / 64 % 2 = 1 → ((b0 % 32) :: rest).all (· == 0) = false →
+      Bls.decodeUncompressed io a b n len (b0 :: rest) = none) := by
+  refine ⟨?_, ?_, ?_⟩
+  · intro hc
+    by_cases hl : rest.length + 1 ≠ 2 * io.comps * len <;> simp [Bls.decodeUncompressed, hl, hc]
+  · intro hs
+    by_cases hl : rest.length + 1 ≠ 2 * io.comps * len <;> by_cases hc : b0 / 128 % 2 = 1 <;>
+      simp [Bls.decodeUncompressed, hl, hc, hs]
+  · intro hi hz
+    by_cases hl : rest.length + 1 ≠ 2 * io.comps * len <;> by_cases hc : b0 / 128 % 2 = 1 <;>
+      by_cases hs : b0 / 32 % 2 = 1 <;> simp [Bls.decodeUncompressed, hl, hc, hs, hi]
+    simpa using hz
+
 /-- accepted ⇒ valid (uncompressed) -/
 theorem bls_decode_valid_uncompressed (bs : List Nat) (P : WPt F)
     (hd : Bls.decodeUncompressed io a b n len bs = some P) :
@@ -704,16 +809,21 @@ theorem bls_decode_valid_uncompressed (bs : List Nat) (P : WPt F)
   | cons b0 rest =>
     by_cases hl : rest.length + 1 ≠ 2 * io.comps * len
     · simp [Bls.decodeUncompressed, hl] at hd
+    by_cases hc : b0 / 128 % 2 = 1
+    · simp [Bls.decodeUncompressed, hl, hc] at hd
+    by_cases hs : b0 / 32 % 2 = 1
+    · simp [Bls.decodeUncompressed, hl, hc, hs] at hd
     by_cases hi : b0 / 64 % 2 = 1
-    · simp only [Bls.decodeUncompressed, hl, hi, if_true, if_false] at hd
-      cases hd; exact ⟨rfl, rfl⟩
-    · simp only [Bls.decodeUncompressed, hl, hi, if_false] at hd
+    · simp only [Bls.decodeUncompressed, hl, hc, hs, hi, if_true, if_false] at hd
       split at hd
-      · next hc =>
-        cases hd
-        simpa using hc
+      · cases hd; exact ⟨rfl, rfl⟩
       · simp at hd
-
+    · simp only [Bls.decodeUncompressed, hl, hc, hs, hi, if_false] at hd
+      split at hd
+      · next hcv =>
+        cases hd
+        simpa using hcv
+      · simp at hd
 /-- **decode ∘ encode, BLS compressed**: every subgroup point round-trips (flags `100`/`101` + `x`,
 `110` + zeros for the identity) -/
 theorem bls_decode_encode (h : GoodCoordIO io len) (hpos : 0 < io.comps * len) (P : WPt F)
@@ -974,6 +1084,21 @@ example : Ed.encodeCompressed io7 1 ⟨1, 2⟩ = [0x82] ∧
 example : Mont.encodeUncompressed io7 3 1 ⟨0, -1⟩ = [0, 0] ∧ Mont.encodeUncompressed io7 3 1 E.zero = [0, 0] :=
   ⟨(mont_order2_collides io7 1 3 (by decide) (by decide)).2.trans (by decide), by decide⟩
 
+/-- `y² = x³ + 2` over `F₇`: `(0, 3)` (odd) round-trips under the P-256 rule, `(0, 4)` (even) cannot -/
+example : Sec1.decodeCompressedS io7 0 2 1 (Sec1.encodeCompressed io7 1 (.aff 0 3)) = some (.aff 0 3) :=
+  decode_encode_p256 io7 0 2 1 io7_good (.aff 0 3) (by decide) (by intro x y h; cases h; decide)
+
+example : ¬ decode_encode_p256_statement io7 0 2 1 :=
+  decode_encode_p256_statement_false_of_even_sqrt io7 0 2 1 io7_good 4 (by decide) (by decide)
+
+example : W.onCurve (0 : ZMod 7) 2 (.aff 3 1) = true ∧ Sec1.decodeCompressedS io7 0 2 1 [5, 0] = none :=
+  ⟨decode_valid_p256 io7 0 2 1 io7_good [3, 3] (.aff 3 1) (by decide),
+   (decode_len_flags_p256 io7 0 2 1 5 [0]).2.1 (by decide) (by decide)⟩
+
+example : Sec1.encodeCompressed io7 1 (.aff 0 3) ≠ Sec1.encodeCompressed io7 1 (.aff 3 1) := fun he =>
+  absurd (encode_injective_p256 io7 0 2 1 io7_good (.aff 0 3) (.aff 3 1) (by decide) (by decide)
+    (by intro x y h; cases h; decide) (by intro x y h; cases h; decide) he) (by decide)
+
 /-- a one-component BLS-style coordinate view over `F₇` (one byte per coordinate) -/
 def cio7 : CoordIO (ZMod 7) where
   comps := 1
@@ -1009,6 +1134,12 @@ example : Bls.decodeCompressed cio7 0 3 13 1 [0x01] = none ∧ Bls.decodeCompres
    (bls_decode_flags cio7 0 3 13 1 0xe0 []).2.1 (by decide) (by decide),
    (bls_decode_flags cio7 0 3 13 1 0xc1 []).2.2 (by decide) (by decide),
    (bls_decode_len cio7 0 3 13 1 [0x81, 0]).1 (by decide)⟩
+
+example : Bls.decodeUncompressed cio7 0 3 13 1 [0x81, 2] = none ∧ Bls.decodeUncompressed cio7 0 3 13 1 [0x21, 2] = none ∧
+    Bls.decodeUncompressed cio7 0 3 13 1 [0x41, 0] = none ∧ Bls.decodeUncompressed cio7 0 3 13 1 [0x40, 0] = some .inf :=
+  ⟨(bls_uncompressed_flags_rejected cio7 0 3 13 1 0x81 [2]).1 (by decide),
+   (bls_uncompressed_flags_rejected cio7 0 3 13 1 0x21 [2]).2.1 (by decide),
+   (bls_uncompressed_flags_rejected cio7 0 3 13 1 0x41 [0]).2.2 (by decide) (by decide), by decide⟩
 
 example : Bls.encodeCompressed cio7 1 (.aff 1 2) ≠ Bls.encodeCompressed cio7 1 (.aff 1 5) := fun he =>
   absurd (bls_encode_injective cio7 0 3 13 1 cio7_good (by decide) (.aff 1 2) (.aff 1 5)
